@@ -127,3 +127,13 @@ package router
 //@   loop 0 invariant forall j int :: 0 <= j && j <= rangeindex ==> !routeMet(addr(r.routes[j]), network, requestInfo) && !routeFails(addr(r.routes[j]), network, requestInfo) && len(r.routes[j].criteria) > 0
 //@   ensures isnil(result1) ==> (exists k int :: 0 <= k && k < len(r.routes) && result0 == addr(r.routes[k]) && routeMet(result0, network, requestInfo) && (forall j int :: 0 <= j && j < k ==> !routeMet(addr(r.routes[j]), network, requestInfo) && !routeFails(addr(r.routes[j]), network, requestInfo)))
 //@   ensures !isnil(result1) ==> isnil(result0) && (exists k int :: 0 <= k && k < len(r.routes) && routeFails(addr(r.routes[k]), network, requestInfo) && (forall j int :: 0 <= j && j < k ==> !routeMet(addr(r.routes[j]), network, requestInfo) && !routeFails(addr(r.routes[j]), network, requestInfo)))
+
+// ---------------------------------------------------------------------------
+// Route construction (property C09): the bit-set port criteria are built with the kind (source / destination)
+// and the inversion flag of the configuration field they come from.
+// ---------------------------------------------------------------------------
+
+//@ func (*RouteConfig).Route
+//@   requires !isnil(rc)
+//@   callsite AddCriterion: ifaceptr(arg1) == ptrint(addr(sourcePortSetCriterion)) ==> dyntype(arg1, *SourcePortSetCriterion) && arg2 == rc.InvertFromPorts
+//@   callsite AddCriterion: ifaceptr(arg1) == ptrint(addr(destPortSetCriterion)) ==> dyntype(arg1, *DestPortSetCriterion) && arg2 == rc.InvertToPorts
